@@ -157,6 +157,14 @@ func (s setup) router() *rux.Router {
 		opts = append(opts, rux.CachingWithNum(uint16(s.cacheCap)))
 	}
 	r := rux.New(opts...)
+	if s.cacheCap%2 == 0 {
+		// a logging middleware reads the path parameters (and other getters) before the static handler runs
+		r.Use(func(c *rux.Context) {
+			_, _ = c.Param("file"), c.Params.String("file")
+			_, _, _ = c.Length(), c.URL().Path, c.ContentType()
+			c.Next()
+		})
+	}
 	if s.second != "" {
 		switch {
 		case strings.HasPrefix(s.second, "/v2/"):
@@ -177,7 +185,12 @@ func (s setup) router() *rux.Router {
 		case "StaticDir":
 			r.StaticDir(s.prefix, dir)
 		case "StaticFS":
-			r.StaticFS(s.prefix, http.Dir(dir))
+			if s.globalFile {
+				// an application's own http.FileSystem: it trusts the cleaned name http.FileServer hands it
+				r.StaticFS(s.prefix, joinFS(dir))
+			} else {
+				r.StaticFS(s.prefix, http.Dir(dir))
+			}
 		case "StaticFiles":
 			r.StaticFiles(s.prefix, dir, s.exts)
 		case "StaticFile":
@@ -486,3 +499,11 @@ func propStaticFileCurrent(t *rapid.T) {
 }
 
 func TestPropStaticFileCurrent(t *testing.T) { rapid.Check(t, propStaticFileCurrent) }
+
+// joinFS is a minimal http.FileSystem as applications write them: it joins the name it is given onto its root.  That
+// is sound behind http.FileServer, which only ever asks for cleaned, rooted names.
+type joinFS string
+
+func (d joinFS) Open(name string) (http.File, error) {
+	return os.Open(filepath.Join(string(d), filepath.FromSlash(name)))
+}
